@@ -155,6 +155,8 @@ func (c *c10) Enabled() []seqx.Event {
 		if _, ok := s.urr[2]; ok && p == 0 {
 			ev = append(ev, nm(seqx.Ev("Update", int64(p), 2, 0), "UpdateURR(s%d,2 -> VOLUM+DURAT+MNOP; no report)", s.k))
 			ev = append(ev, nm(seqx.Ev("Update", int64(p), 2, 1), "UpdateURR(s%d,2 -> VOLUM+DURAT+MNOP; with report)", s.k))
+			// two different measurements of ONE URR in one response: the update's report and the immediate report
+			ev = append(ev, nm(seqx.Ev("Update", int64(p), 2, 3), "UpdateURR(s%d,2; with report) + QueryURR(s%d,2) in one request", s.k, s.k))
 		}
 		if p == 0 && s.peer == 0 {
 			// the session is taken over by another SMF of the set (fresh node id T1): from then on its reports and
@@ -485,7 +487,13 @@ func (c *c10) Apply(e seqx.Event) seqx.StepResult {
 				op = smf.RuleOp{Verb: 'U', Kind: 'U', ID: u, Period: uint32(P1 / time.Second), MInfo: -1}
 			}
 		}
-		o = c.W.Send(s.peer, smf.Mod(c.seq(), s.up, "", op))
+		ops := []smf.RuleOp{op}
+		both := e.Op == "Update" && e.A[2] == 3
+		if both {
+			c.W.K.UpdateURRReports = true
+			ops = append(ops, smf.RuleOp{Verb: 'Q', Kind: 'U', ID: u, MInfo: -1})
+		}
+		o = c.W.Send(s.peer, smf.Mod(c.seq(), s.up, "", ops...))
 		c.W.K.UpdateURRReports = false
 		if j.Crashed(c.W.World, o) {
 			break
@@ -502,6 +510,13 @@ func (c *c10) Apply(e seqx.Event) seqx.StepResult {
 		wantN := 1
 		if e.Op == "Update" && e.A[2] != 1 {
 			wantN = 0
+		}
+		if both {
+			wantN = 2
+			if len(ws) == 2 {
+				ws[1].trig = 1 << 7 // the second measurement answers the Query URR: immediate report
+			}
+			j.Tag("two-reports-one-urr-one-response")
 		}
 		if len(ws) != wantN {
 			j.Fail("measurement-count:"+e.Op, "%s: the data plane produced %d reports for known URRs, want %d", e, len(ws), wantN)
